@@ -567,6 +567,7 @@ class Interp:
         self.excluded = 0        # choices replaced because of known findings
         self.exclusions = {}
         self.unit = chip_unit(cfg)
+        self.last_commentary = None
 
     # ---- enabled kinds ----------------------------------------------------
     def enabled(self):
@@ -600,9 +601,11 @@ class Interp:
         args = self._choose_args(kind)
         if self.hooks is not None:
             self.hooks.before(self, kind, args)
+        self.last_commentary = None
         if self.cfg.get('commentary') and len(s.operations) % 3 == 0:
+            self.last_commentary = f'note {len(s.operations)}: {kind}'
             result = getattr(s, kind)(
-                *args, commentary=f'note {len(s.operations)}: {kind}',
+                *args, commentary=self.last_commentary,
             )
         else:
             result = getattr(s, kind)(*args)
